@@ -40,13 +40,14 @@ StartsWith(t, p) == Len(p) <= Len(t) /\ SubSeq(t, 1, Len(p)) = p   \* token t st
      inter qs       set intersection (qs non-empty; the code indexes iterators[0])
      range b e q    the values v of q with b <= v < e        (search.KeyRange: Begin inclusive, End exclusive)
      prefix p       union of the lists of all tokens that start with p *)
-RECURSIVE Den(_, _)
+RECURSIVE Den(_, _), DenAll(_, _, _)
+\* the values every one of qs[1..n] denotes (n >= 1); written as a fold so that every operand is evaluated once
+DenAll(i, qs, n) == IF n = 1 THEN Den(i, qs[1]) ELSE DenAll(i, qs, n - 1) \cap Den(i, qs[n])
 Den(i, e) ==
   CASE e.k = "all"    -> IF e.t \in DOMAIN i THEN i[e.t] ELSE {}
     [] e.k = "empty"  -> {}
     [] e.k = "union"  -> UNION {Den(i, e.qs[j]) : j \in DOMAIN e.qs}
-    [] e.k = "inter"  -> LET ds == [j \in DOMAIN e.qs |-> Den(i, e.qs[j])]     \* each operand evaluated once
-                         IN {x \in ds[1] : \A j \in DOMAIN e.qs : x \in ds[j]}
+    [] e.k = "inter"  -> DenAll(i, e.qs, Len(e.qs))
     [] e.k = "range"  -> {x \in Den(i, e.q) : e.b <= x /\ x < e.e}
     [] e.k = "prefix" -> UNION {i[t] : t \in {tt \in DOMAIN i : StartsWith(tt, e.p)}}
 
